@@ -21,7 +21,7 @@ pub fn spec() -> Spec {
         rule: "one case per labeled connected commuting symbol; per case: minimal_image vs Moore refinement (size, verified morphism onto it, no proper quotient, isomorphic to the reference quotient), is_minimal, automorphisms as a set vs verified brute force, morphism(s, t, e) for t in {s, minimal image, harness-built 2-sheeted covers (both directions), every symbol of size <= 2} and every base image e, minimal images of covers(s, <=3). Non-trivial = size >= 2 and (non-minimal or has a non-identity automorphism).",
         assumptions: &["symbols are built through build_set/build_sym_using_vs (validated by C02)", "covers(s, k) is used only as a supply of covers; each is verified to be a covering by the reference model before use"],
         bounds: |t| json!({"dim1_max_size": 5, "dim2_max_size": t.pick(4, 5), "dim3_max_size": t.pick(3, 4), "V": [1,2,3], "dim3_size4_V": [1,2],
-            "two_sheeted_cocycles": "all edge cocycles supported on <= 2 edges", "mid_family": {"dim2_sizes": [5, t.pick(10, 12)], "dim3_sizes": [4, t.pick(7, 8)], "V": [1,2,3], "max_branched_orbits": t.pick(1, 2), "coxeter_symbols_max_chambers": t.pick(384, 1152), "renumberings": ["reverse", "shuffle-in"]}, "crate_covers_max_sheets": 3, "crate_covers_on_sizes_up_to": t.pick(3, 4)}),
+            "two_sheeted_cocycles": "all edge cocycles supported on <= 2 edges", "mid_family": {"dim2_sizes": [5, t.pick(10, 12)], "dim3_sizes": [4, 8], "V": [1,2,3], "max_branched_orbits": t.pick(1, 2), "uniform_degrees": "m(i,i+1) = lcm of orbit lengths everywhere; the same with one or two orbits at twice the value", "spread_assignments": "4 per D-set: all 2-orbits branched with all-distinct values (ascending, descending), period 2, period 3", "coxeter_symbols_max_chambers": t.pick(384, 1152), "renumberings": ["reverse", "shuffle-in"]}, "crate_covers_max_sheets": 3, "crate_covers_on_sizes_up_to": t.pick(3, 4)}),
     }
 }
 
@@ -246,17 +246,78 @@ fn check_sym(ctx: &mut Ctx, family: &str, s: &RS, small: &[RS], full: bool) {
 /// dimension 2, 4-6 [7] in dimension 3) with few branched orbits, each also under two systematic renumberings
 /// (minimal image and number of automorphisms must not depend on the numbering), and the Coxeter coset symbols
 /// (up to 120 [384] chambers; large automorphism groups, minimal images with one or a few chambers)
+fn plain_r(ops: &Vec<Vec<usize>>, i: usize, d: usize) -> usize {
+    let mut e = d;
+    let mut r = 0;
+    loop {
+        e = ops[i + 1][ops[i][e]];
+        r += 1;
+        if e == d {
+            return r;
+        }
+    }
+}
+
 fn mid_family(ctx: &mut Ctx) {
     use rust_dsymbols::dsets::DSet;
     use rust_dsymbols::generators::dset_generators::DSets;
     let tier = ctx.tier;
     let mut symbols: Vec<RS> = vec![];
-    for (dim, lo, hi, maxb) in [(2usize, 5usize, tier.pick(10, 12), tier.pick(1, 2)), (3, 4, tier.pick(7, 8), 1)] {
+    for (dim, lo, hi, maxb) in [(2usize, 5usize, tier.pick(10, 12), tier.pick(1, 2)), (3, 4, 8, 1)] {
         let sets = ctx.supply("DSets::new", || DSets::new(dim, hi).filter(|d| d.size() >= lo).collect::<Vec<_>>());
         for ds in sets {
             if let Some(plain) = from_dset(&ds) {
                 if plain.is_involutive() && plain.is_connected() && plain.commutes() {
                     for_each_branching(&plain.ops, &[1, 2, 3], maxb, &mut |s| symbols.push(s.clone()));
+                    // spread assignments: every 2-orbit branched, neighbouring orbits with different values
+                    // (all distinct: the symbol is rigid, a wrongly merged pair of chambers always shows; period 2
+                    // and 3: many chambers agree on some degrees and differ on others)
+                    let orbs = two_orbits(&plain.ops);
+                    for pattern in 0..4usize {
+                        let mut v = vec![vec![0; plain.n]; dim];
+                        for (k, (i, mem)) in orbs.iter().enumerate() {
+                            let val = match pattern {
+                                0 => k + 2,
+                                1 => orbs.len() - k + 1,
+                                2 => 1 + k % 2,
+                                _ => 1 + (k + *i) % 3,
+                            };
+                            for &d in mem {
+                                v[*i][d] = val;
+                            }
+                        }
+                        symbols.push(RS { n: plain.n, ops: plain.ops.clone(), v });
+                    }
+                    // uniform degrees: m(i, i+1) = lcm of the orbit lengths on every chamber (as in a regular
+                    // tiling), so that the degrees never stop a fold and the coarsest congruence is decided by the
+                    // operations alone; then the same with one orbit, or two orbits of the same index pair,
+                    // at twice that value (dimension 3: two orbits anywhere)
+                    fn gcd(a: usize, b: usize) -> usize { if b == 0 { a } else { gcd(b, a % b) } }
+                    let mut l = vec![1usize; dim];
+                    for (i, mem) in &orbs {
+                        let r = plain_r(&plain.ops, *i, mem[0]);
+                        l[*i] = l[*i] / gcd(l[*i], r) * r;
+                    }
+                    let base: Vec<usize> = orbs.iter().map(|(i, mem)| l[*i] / plain_r(&plain.ops, *i, mem[0])).collect();
+                    let mut emit = |dev: &[usize]| {
+                        let mut v = vec![vec![0; plain.n]; dim];
+                        for (k, (i, mem)) in orbs.iter().enumerate() {
+                            let val = if dev.contains(&k) { 2 * base[k] } else { base[k] };
+                            for &d in mem {
+                                v[*i][d] = val;
+                            }
+                        }
+                        symbols.push(RS { n: plain.n, ops: plain.ops.clone(), v });
+                    };
+                    emit(&[]);
+                    for a in 0..orbs.len() {
+                        emit(&[a]);
+                        for b in (a + 1)..orbs.len() {
+                            if dim == 3 || orbs[a].0 == orbs[b].0 {
+                                emit(&[a, b]);
+                            }
+                        }
+                    }
                 }
             }
         }
